@@ -3225,18 +3225,18 @@ class EntityFixup(MutableMapping[str, str]):
 
     def copy_values(self) -> list[FixupValue]:
         """Generate a list that can be passed to the constructor."""
-        return list(self._fixup.values())
+        return [FixupValue(fix.var, fix.value, fix.id) for fix in self._fixup.values()]
 
     def __copy__(self) -> 'EntityFixup':
         fix = EntityFixup.__new__(EntityFixup)
         fix._matcher = self._matcher
-        fix._fixup = self._fixup.copy()
+        fix._fixup = {key: FixupValue(val.var, val.value, val.id) for key, val in self._fixup.items()}
         return fix
 
     def __deepcopy__(self, memodict: Optional[dict[int, Any]] = None) -> 'EntityFixup':
         fix = EntityFixup.__new__(EntityFixup)
         fix._matcher = self._matcher
-        fix._fixup = self._fixup.copy()
+        fix._fixup = {key: FixupValue(val.var, val.value, val.id) for key, val in self._fixup.items()}
         return fix
 
     def __getstate__(self) -> list[FixupValue]:
